@@ -52,7 +52,18 @@ func VH_C17_Reject() {
 	b := vbip(vparam("L", 1))
 	text := []byte(EncodeBIP276(b))
 	n := len(text)
-	switch vnondetLen("corruption", 0, 2) {
+	switch vnondetLen("corruption", 0, 3) {
+	case 3: // one or two non-hex characters appended after the checksum
+		for i, m := 0, vnondetLen("tail-len", 1, 2); i < m; i++ {
+			c := vnondetU8("tailchar")
+			vassume(!((c >= '0' && c <= '9') || (c >= 'a' && c <= 'f') || (c >= 'A' && c <= 'F')))
+			text = append(text, c)
+		}
+		_, err := DecodeBIP276(string(text))
+		vassert(err != nil, "C17: text continuing after the checksum rejected")
+		ok, _ := ValidateAddress(string(text))
+		vassert(!ok || b.Prefix != PrefixScript, "C17: ValidateAddress rejects text continuing after the checksum")
+		vreach("c17-tail")
 	case 0: // one checksum character replaced by a different hex digit
 		k := n - 8 + vnondetLen("ckpos", 0, 7)
 		c := vnondetU8("ckchar")
